@@ -412,7 +412,20 @@ func ruleSlotFunction(w *core.World, r *core.Report, f *ssa.Function) string {
 		}
 	}
 	if sPhi == nil || ePhi == nil {
-		r.Undecided(cons, f.Pos(), "the function does not locate the tag by a first-match scan for '{' from index 0 followed by a first-match scan for '}' from the next index (recognised idiom: for i = start; i < len(key); i++ { if key[i] == c { break } }); a scan that continues after the first '{' or searches from the end disagrees with HASH_SLOT for keys with several braces")
+		if sum, done := slotFunctionIndexIdiom(w, r, f, key, cons, func(ret *ssa.Return) ssa.Value {
+			for _, ri := range rets {
+				if ri.ret == ret {
+					return ri.arg
+				}
+			}
+			return nil
+		}); done {
+			if sum == "first{first}nonempty&16383" {
+				return sum
+			}
+			return name + ":" + sum
+		}
+		r.Undecided(cons, f.Pos(), "the function does not locate the tag by a first-match scan for '{' from index 0 followed by a first-match scan for '}' from the next index (recognised idioms: for i = start; i < len(key); i++ { if key[i] == c { break } }, or s := strings.IndexByte(key, '{') / e := strings.IndexByte(key[s+1:], '}')); a scan that continues after the first '{' or searches from the end disagrees with HASH_SLOT for keys with several braces")
 		return name + ":unrecognised"
 	}
 	isS := func(v ssa.Value) bool { return v == ssa.Value(sPhi) }
@@ -477,3 +490,202 @@ func isPlusOne(v ssa.Value, ph *ssa.Phi) bool {
 }
 
 var _ = strings.ToLower
+
+// ---------------------------------------------------------------- the library-search idiom
+
+// isIndexOf matches strings.IndexByte(x, c) / strings.Index(x, "c") /
+// strings.IndexRune(x, c) / bytes.IndexByte(x, c) for an ASCII constant c and
+// returns x.
+func isIndexOf(v ssa.Value, ch int64) (ssa.Value, bool) {
+	c, ok := v.(*ssa.Call)
+	if !ok || len(c.Call.Args) != 2 {
+		return nil, false
+	}
+	switch core.ResolveCall(c).Name {
+	case "strings.IndexByte", "bytes.IndexByte", "strings.IndexRune":
+		if k, ok := core.ConstInt(c.Call.Args[1]); ok && k == ch {
+			return c.Call.Args[0], true
+		}
+	case "strings.Index":
+		if str, ok := core.ConstString(c.Call.Args[1]); ok && str == string(rune(ch)) {
+			return c.Call.Args[0], true
+		}
+	}
+	return nil, false
+}
+
+// rangeOn derives the interval a path's branch outcomes leave for an integer
+// value compared with constants only (a library search result is >= -1).
+func rangeOn(p *core.Path, v ssa.Value) (lo, hi int64) {
+	lo, hi = -1, 1<<62
+	for _, fct := range p.Conds {
+		c, ok := core.AsCmp(fct.Cond, fct.Val)
+		if !ok {
+			continue
+		}
+		op, x, y := c.Op, c.X, c.Y
+		if y == v {
+			x, y = y, x
+			switch op {
+			case token.LSS:
+				op = token.GTR
+			case token.LEQ:
+				op = token.GEQ
+			case token.GTR:
+				op = token.LSS
+			case token.GEQ:
+				op = token.LEQ
+			}
+		}
+		if x != v {
+			continue
+		}
+		k, ok := core.ConstInt(y)
+		if !ok {
+			continue
+		}
+		switch op {
+		case token.LSS:
+			if k-1 < hi {
+				hi = k - 1
+			}
+		case token.LEQ:
+			if k < hi {
+				hi = k
+			}
+		case token.GTR:
+			if k+1 > lo {
+				lo = k + 1
+			}
+		case token.GEQ:
+			if k > lo {
+				lo = k
+			}
+		case token.EQL:
+			if k > lo {
+				lo = k
+			}
+			if k < hi {
+				hi = k
+			}
+		case token.NEQ:
+			if k == lo {
+				lo++
+			}
+			if k == hi {
+				hi--
+			}
+		}
+	}
+	return
+}
+
+// slotFunctionIndexIdiom decides R11.4 for a slot function written with
+// library searches: s = Index(key,'{'), e = Index(key[s+1:],'}') (e relative
+// to s+1), tag = key[s+1 : s+1+e].
+func slotFunctionIndexIdiom(w *core.World, r *core.Report, f *ssa.Function, key ssa.Value, cons string, argOf func(*ssa.Return) ssa.Value) (string, bool) {
+	var sCall, eCall ssa.Value
+	for _, in := range core.Instrs(f) {
+		v, ok := in.(ssa.Value)
+		if !ok {
+			continue
+		}
+		if x, ok := isIndexOf(v, '{'); ok && x == key {
+			sCall = v
+		}
+	}
+	if sCall == nil {
+		return "", false
+	}
+	isS1 := func(v ssa.Value) bool {
+		b, ok := v.(*ssa.BinOp)
+		return ok && b.Op == token.ADD && ((b.X == sCall && isConstInt(1)(b.Y)) || (b.Y == sCall && isConstInt(1)(b.X)))
+	}
+	for _, in := range core.Instrs(f) {
+		v, ok := in.(ssa.Value)
+		if !ok {
+			continue
+		}
+		if x, ok := isIndexOf(v, '}'); ok {
+			if sl, ok := x.(*ssa.Slice); ok && sl.X == key && sl.Low != nil && isS1(sl.Low) && sl.High == nil {
+				eCall = v
+			}
+		}
+	}
+	if eCall == nil {
+		return "", false
+	}
+	isHigh := func(v ssa.Value) bool { // s+1+e in any association
+		b, ok := v.(*ssa.BinOp)
+		if !ok || b.Op != token.ADD {
+			return false
+		}
+		if (isS1(b.X) && b.Y == eCall) || (isS1(b.Y) && b.X == eCall) {
+			return true
+		}
+		for _, pr := range [][2]ssa.Value{{b.X, b.Y}, {b.Y, b.X}} {
+			if isConstInt(1)(pr[1]) {
+				if in, ok := pr[0].(*ssa.BinOp); ok && in.Op == token.ADD && ((in.X == sCall && in.Y == eCall) || (in.Y == sCall && in.X == eCall)) {
+					return true
+				}
+			}
+			if pr[0] == sCall {
+				if in, ok := pr[1].(*ssa.BinOp); ok && in.Op == token.ADD && ((in.X == eCall && isConstInt(1)(in.Y)) || (in.Y == eCall && isConstInt(1)(in.X))) {
+					return true
+				}
+			}
+		}
+		return false
+	}
+	bad := ""
+	var badPos token.Pos
+	nWhole, nSlice := 0, 0
+	okEnum := core.EnumPaths(f.Blocks[0], 0, 100000, func(p *core.Path) {
+		ret, ok := p.End.(*ssa.Return)
+		if !ok || bad != "" {
+			return
+		}
+		arg := argOf(ret)
+		if arg == nil {
+			return
+		}
+		arg = p.Resolve(arg)
+		sLo, sHi := rangeOn(p, sCall)
+		eLo, eHi := rangeOn(p, eCall)
+		eEvaluated := false
+		for _, in := range p.Instrs {
+			if v, ok := in.(ssa.Value); ok && v == eCall {
+				eEvaluated = true
+			}
+		}
+		if arg == key {
+			nWhole++
+			sMiss := sHi < 0
+			_ = eLo
+			noTag := eEvaluated && eHi <= 0 // e == -1: no '}' after it; e == 0: nothing between the braces
+			if !(sMiss || noTag) {
+				bad, badPos = "the whole key is hashed on a path where a non-empty tag was found (or the path did not establish that none was)", ret.Pos()
+			}
+			return
+		}
+		sl, ok := arg.(*ssa.Slice)
+		if !ok || sl.X != key || sl.Low == nil || !isS1(sl.Low) || sl.High == nil || !isHigh(sl.High) {
+			bad, badPos = "the hashed substring is not key[s+1 : s+1+e]", ret.Pos()
+			return
+		}
+		nSlice++
+		if !(sLo >= 0 && eEvaluated && eLo >= 1) {
+			bad, badPos = "the tag is hashed on a path that did not establish: '{' found, '}' found after it, tag non-empty (at least one byte between the braces)", ret.Pos()
+		}
+	})
+	if !okEnum {
+		r.Undecided(cons, f.Pos(), "too many paths")
+		return "?", true
+	}
+	if bad != "" {
+		r.Fail(cons, badPos, "%s", bad)
+		return "bad", true
+	}
+	r.Check(nWhole > 0 && nSlice > 0, cons, f.Pos(), "expected both whole-key and tag returns (whole=%d tag=%d)", nWhole, nSlice)
+	return "first{first}nonempty&16383", true
+}
